@@ -2,11 +2,20 @@
 """Print the sub-agent prompt for behaviour-preserving refactorings around one property (property text only)."""
 import json, sys
 pid = sys.argv[1]
+first = int(sys.argv[2]) if len(sys.argv) > 2 else 1          # number of the first refactoring to produce (b<first> .. b<first+3>)
+import glob, os
+earlier = []
+for d in sorted(glob.glob('/verif/benign/%s-b*' % pid)):
+    try:
+        m = json.load(open(os.path.join(d, 'meta.json')))
+        earlier.append("- %s: %s" % (m.get('kind', '')[:80], (m.get('summary') or '')[:300]))
+    except Exception:
+        pass
 for l in open('/verif/properties.jsonl'):
     p = json.loads(l)
     if p['id'] == pid:
         break
-wt = "/tmp/wt/%sben" % pid.lower()
+wt = "/tmp/wt/%sben%d" % (pid.lower(), first)
 mech = "; ".join("%s (%s)" % (m['name'], m['where']) for m in p['anchors'].get('mechanism', []))
 print(f"""You are helping to evaluate how robust a set of static checkers for the C++ library libtins (mfontanini/libtins: packet crafting/parsing library) is against BENIGN code changes. Your job: produce FOUR different, realistic, strictly BEHAVIOUR-PRESERVING refactorings of libtins library code in the area of the property below. The checkers must stay silent on them; a checker that fires on one of your refactorings has a false alarm.
 
@@ -32,11 +41,12 @@ There is no network access. Work only under {wt} and /tmp/wt/out/{pid}/.
 - 5 to 40 changed lines each; the four should use different refactoring kinds and touch different functions where possible.
 - The library must compile and the FULL test suite must pass with each refactoring applied (verify this).
 
-## Deliverables (write them to /tmp/wt/out/{pid}/b1/ ... /tmp/wt/out/{pid}/b4/)
+{("## Already done in an earlier round - do something DIFFERENT (other functions where possible, other refactoring kinds, larger restructurings are welcome as long as they stay exactly equivalent)" + chr(10) + chr(10).join(earlier) + chr(10)) if earlier and first > 1 else ""}
+## Deliverables (write them to /tmp/wt/out/{pid}/b{first}/ ... /tmp/wt/out/{pid}/b{first+3}/)
 For each refactoring bN:
   - patch.diff : `git diff` of the worktree for that refactoring alone (relative to HEAD; must apply with `git apply` at the repo root)
   - meta.json : {{"property": "{p['id']}", "kind": "...refactoring kind...", "summary": "...what was changed...", "why_equivalent": "...argument that behaviour is identical for all inputs..."}}
-Keep them separate: revert (git checkout -- .) before making the next one.
+Number them b{first}, b{first+1}, b{first+2}, b{first+3}. Keep them separate: revert (git checkout -- .) before making the next one.
 
 When finished, remove your worktree and its build output:  git -C /repo worktree remove --force {wt}
 Report briefly: for each refactoring the file/function changed and the kind.""")
